@@ -2146,7 +2146,9 @@ pub fn set_index(
                     }
                     Ok(())
                 } else {
-                    todo!("assgn to slice")
+                    Err(NErr::type_error(
+                        "can't assign to a slice (not implemented; use every)".to_string(),
+                    ))
                     // set_index(pythonic_mut(&mut Rc::make_mut(v), i)?, rest, value)
                 }
             }
